@@ -70,4 +70,19 @@ def keepsAllOnL (S : SK → Bool) (c : Ctx) : List Green → Bool
   | g :: gs => keepsAllOn S c g && keepsAllOnL S c gs
 end
 
+/-- the node kinds for which `C14_parsed_trees_keep_all_partial` is proved: all but these six -/
+def covered : SK → Bool
+  | .ParamList | .LambdaExpr | .RecordExpr | .MacroExpansion | .TupleType | .RecordType => false
+  | _ => true
+
+mutual
+/-- every node of the tree has a kind in `S` -/
+def usesOnly (S : SK → Bool) : Green → Bool
+  | .token _ _ => true
+  | .node k cs => (match Gen.skOfNat k with | some sk => S sk | none => false) && usesOnlyL S cs
+def usesOnlyL (S : SK → Bool) : List Green → Bool
+  | [] => true
+  | g :: gs => usesOnly S g && usesOnlyL S gs
+end
+
 end Mimium.CstPrint
